@@ -3,7 +3,7 @@
   (the definitions the driver runs).  `rowSimp s k` / `colSimp s k` (XgiModel/C13/LemmasSC.lean) list, in row /
   column order, the id and the sorted vertex list of the simplices labelling rows and columns of `boundary s k o`.
 -/
-import XgiModel.C13.LemmasHodge
+import XgiModel.C13.LemmasKer
 
 open Finset
 
@@ -377,8 +377,8 @@ theorem boundary_one_transpose_apply (h : WF s) (o : PyId → Nat) (x : Nat → 
   ring
 
 /-- **kernel of `L_0`** (the part proved in Lean): `L_0 x = 0` exactly when `x` takes the same value at the two
-    end points of every 1-simplex, i.e. `x` is constant on every connected component.  (That the dimension of this
-    space is the number of components is not formalised; the harness checks it by exact rank.) -/
+    end points of every 1-simplex (constant on connected components: `ker_L0_iff_const_on_components`; dimension of
+    this space = number of components: `ker_L0_finrank`) -/
 theorem ker_L0_const_on_edges (h : WF s) (o : PyId → Nat) (x : Nat → Int) :
     (∀ i < (hodge s 0 o).r, (hodge s 0 o).mulVec x i = 0) ↔
     (∀ m (hm : m < (colSimp s (0 + 1)).length) (ia ib : Nat) (hia : ia < s.nodes.length) (hib : ib < s.nodes.length),
@@ -403,6 +403,177 @@ theorem ker_L0_const_on_edges (h : WF s) (o : PyId → Nat) (x : Nat → Int) :
     rw [boundary_one_transpose_apply h o x hm' hia hib hab', hE m hm' ia ib hia hib hab']
     simp
 
+/-! ### the kernel of `L_0` and the connected components of the 1-skeleton
+
+    `Reach s a b` (XgiModel/C13/LemmasKer.lean): `a` and `b` are joined by a path of 1-simplices
+    (`Relation.ReflTransGen` of "`a ≠ b` are both members of a simplex with two members");
+    `compSetoid s`: that relation on node positions `Fin s.nodes.length`;
+    `L0Matrix K s o`: the model's `hodge s 0 o` with entries cast to `K`, as a Mathlib matrix on node positions;
+    `nComponents s` (XgiModel/C13/Components.lean): the executable component count the driver reports. -/
+
+/-- `L_0` is a square matrix indexed by the node positions (so `L0Matrix` is all of it) -/
+theorem hodge_zero_shape (o : PyId → Nat) : (hodge s 0 o).r = s.nodes.length ∧ (hodge s 0 o).c = s.nodes.length := by
+  rw [hodge_r, hodge_c, boundary_c]; simp [upIds]
+
+/-- **kernel of `L_0`, integer vectors**: `L_0 x = 0` exactly when `x` is constant on every connected component of
+    the 1-skeleton (takes equal values at any two nodes joined by a path of 1-simplices) -/
+theorem ker_L0_iff_const_on_components (h : WF s) (o : PyId → Nat) (x : Nat → Int) :
+    (∀ i < (hodge s 0 o).r, (hodge s 0 o).mulVec x i = 0) ↔
+    (∀ (ia ib : Nat) (hia : ia < s.nodes.length) (hib : ib < s.nodes.length),
+      Reach s s.nodes[ia] s.nodes[ib] → x ia = x ib) := by
+  rw [ker_L0_const_on_edges h o x]
+  exact const_on_edges_iff_const_on_reach h x
+
+/-- entries of `B_1` in the column of the edge whose sorted vertex list is `[nodes[ia], nodes[ib]]`:
+    `(-1)^o` at the head `ib`, `-(-1)^o` at the tail `ia`, zero elsewhere -/
+theorem boundary_one_entry (h : WF s) (o : PyId → Nat) {m : Nat}
+    (hm : m < (colSimp s (0 + 1)).length) {ia ib : Nat} (hia : ia < s.nodes.length) (hib : ib < s.nodes.length)
+    (hab : (colSimp s (0 + 1))[m].2 = [s.nodes[ia], s.nodes[ib]]) {i : Nat} (hi : i < s.nodes.length) :
+    (boundary s (0 + 1) o).e i m =
+      sgn (o (colSimp s (0 + 1))[m].1) * ((if i = ib then 1 else 0) - (if i = ia then 1 else 0)) := by
+  have key := boundary_one_transpose_apply h o (fun k => if k = i then 1 else 0) hm hia hib hab
+  rw [mulVec_eq] at key
+  simp only [Mat.transpose, mul_ite, mul_one, mul_zero, Finset.sum_ite_eq', mem_range] at key
+  have hr : i < (boundary s (0 + 1) o).r := by rw [boundary_rows 0 o]; simpa [rowSimp] using hi
+  rw [if_pos hr] at key
+  rw [key]
+  simp only [eq_comm]
+
+/-- `B_1ᵀ x` for a vector over an ordered field, at the edge `[nodes[ia], nodes[ib]]` -/
+theorem boundary_one_transpose_apply_field {K : Type} [Field K] (h : WF s) (o : PyId → Nat) (x : Nat → K) {m : Nat}
+    (hm : m < (colSimp s (0 + 1)).length) {ia ib : Nat} (hia : ia < s.nodes.length) (hib : ib < s.nodes.length)
+    (hab : (colSimp s (0 + 1))[m].2 = [s.nodes[ia], s.nodes[ib]]) :
+    (∑ i ∈ range s.nodes.length, ((boundary s (0 + 1) o).e i m : K) * x i) =
+      (sgn (o (colSimp s (0 + 1))[m].1) : K) * (x ib - x ia) := by
+  have hterm : ∀ i ∈ range s.nodes.length, ((boundary s (0 + 1) o).e i m : K) * x i =
+      (if i = ib then (sgn (o (colSimp s (0 + 1))[m].1) : K) * x i else 0) -
+      (if i = ia then (sgn (o (colSimp s (0 + 1))[m].1) : K) * x i else 0) := by
+    intro i hi
+    rw [boundary_one_entry h o hm hia hib hab (mem_range.mp hi)]
+    push_cast
+    split_ifs <;> ring
+  rw [Finset.sum_congr rfl hterm, Finset.sum_sub_distrib, Finset.sum_ite_eq', Finset.sum_ite_eq',
+    if_pos (mem_range.mpr hib), if_pos (mem_range.mpr hia)]
+  ring
+
+/-- over an ordered field, `L_0 x = 0` exactly when `B_1ᵀ x = 0` (`xᵀ L_0 x = ‖B_1ᵀ x‖²`) -/
+theorem ker_L0_iff_field {K : Type} [Field K] [LinearOrder K] [IsStrictOrderedRing K] (h : WF s) (o : PyId → Nat)
+    (x : Nat → K) :
+    (∀ i < s.nodes.length, ∑ j ∈ range s.nodes.length, ((hodge s 0 o).e i j : K) * x j = 0) ↔
+    (∀ m < (colSimp s (0 + 1)).length, ∑ j ∈ range s.nodes.length, ((boundary s (0 + 1) o).e j m : K) * x j = 0) := by
+  have h0 : (boundary s 0 o).r = 0 := (boundary_zero_no_rows h o).1
+  have hc : (boundary s (0 + 1) o).c = (colSimp s (0 + 1)).length := boundary_cols 0 o
+  have hL : ∀ i j, ((hodge s 0 o).e i j : K) =
+      ∑ m ∈ range (colSimp s (0 + 1)).length, ((boundary s (0 + 1) o).e i m : K) * ((boundary s (0 + 1) o).e j m : K) := by
+    intro i j; rw [hodge_e, h0, ← hc]; simp
+  constructor
+  · intro hker
+    have hq := quad_gram (fun m j => ((boundary s (0 + 1) o).e j m : K)) x s.nodes.length (colSimp s (0 + 1)).length
+    have hz : (∑ i ∈ range s.nodes.length, ∑ j ∈ range s.nodes.length,
+        x i * (∑ m ∈ range (colSimp s (0 + 1)).length,
+          ((boundary s (0 + 1) o).e i m : K) * ((boundary s (0 + 1) o).e j m : K)) * x j) = 0 := by
+      apply Finset.sum_eq_zero
+      intro i hi
+      have := hker i (mem_range.mp hi)
+      calc (∑ j ∈ range s.nodes.length, x i * (∑ m ∈ range (colSimp s (0 + 1)).length,
+              ((boundary s (0 + 1) o).e i m : K) * ((boundary s (0 + 1) o).e j m : K)) * x j)
+          = x i * ∑ j ∈ range s.nodes.length, ((hodge s 0 o).e i j : K) * x j := by
+            rw [Finset.mul_sum]; apply Finset.sum_congr rfl; intro j _; rw [hL]; ring
+        _ = 0 := by rw [this, mul_zero]
+    rw [hz] at hq
+    have := (Finset.sum_eq_zero_iff_of_nonneg (fun _ _ => sq_nonneg _)).mp hq.symm
+    intro m hm
+    exact pow_eq_zero_iff (two_ne_zero) |>.mp (this m (mem_range.mpr hm))
+  · intro hT0 i _
+    calc (∑ j ∈ range s.nodes.length, ((hodge s 0 o).e i j : K) * x j)
+        = ∑ m ∈ range (colSimp s (0 + 1)).length, ((boundary s (0 + 1) o).e i m : K) *
+            ∑ j ∈ range s.nodes.length, ((boundary s (0 + 1) o).e j m : K) * x j := by
+          simp_rw [hL, Finset.sum_mul, Finset.mul_sum]
+          rw [Finset.sum_comm]
+          apply Finset.sum_congr rfl; intro m _
+          apply Finset.sum_congr rfl; intro j _
+          ring
+      _ = 0 := by
+          apply Finset.sum_eq_zero
+          intro m hm
+          rw [hT0 m (mem_range.mp hm), mul_zero]
+
+/-- **kernel of `L_0`, vectors over an ordered field** (ℚ, ℝ): `L_0 x = 0` exactly when `x` is constant on every
+    connected component of the 1-skeleton -/
+theorem ker_L0_field_iff_const_on_components {K : Type} [Field K] [LinearOrder K] [IsStrictOrderedRing K]
+    (h : WF s) (o : PyId → Nat) (x : Nat → K) :
+    (∀ i < s.nodes.length, ∑ j ∈ range s.nodes.length, ((hodge s 0 o).e i j : K) * x j = 0) ↔
+    (∀ (ia ib : Nat) (hia : ia < s.nodes.length) (hib : ib < s.nodes.length),
+      Reach s s.nodes[ia] s.nodes[ib] → x ia = x ib) := by
+  rw [ker_L0_iff_field h o x, ← const_on_edges_iff_const_on_reach h x]
+  have hs : ∀ k : Nat, (sgn k : K) ≠ 0 := fun k => by exact_mod_cast sgn_ne_zero k
+  constructor
+  · intro hT m hm ia ib hia hib hab
+    have h1 := hT m hm
+    rw [boundary_one_transpose_apply_field h o x hm hia hib hab] at h1
+    rcases mul_eq_zero.mp h1 with h2 | h2
+    · exact absurd h2 (hs _)
+    · exact (sub_eq_zero.mp h2).symm
+  · intro hE m hm
+    obtain ⟨_, _, hlen, p, hps, _, hpe⟩ := colSimp_props h (0 + 1) hm
+    obtain ⟨a, b, hab⟩ := List.length_eq_two.mp hlen
+    have hmem : ∀ y ∈ (colSimp s (0 + 1))[m].2, y ∈ s.nodes := by
+      intro y hy; rw [hpe] at hy; exact h.memNodes p hps y (mem_ss.mp hy)
+    obtain ⟨ia, hia, haa, _⟩ := idxOf_nodes h (hmem a (by rw [hab]; simp))
+    obtain ⟨ib, hib, hbb, _⟩ := idxOf_nodes h (hmem b (by rw [hab]; simp))
+    have hab' : (colSimp s (0 + 1))[m].2 = [s.nodes[ia], s.nodes[ib]] := by rw [hab, haa, hbb]
+    rw [boundary_one_transpose_apply_field h o x hm hia hib hab', hE m hm ia ib hia hib hab']
+    simp
+
+/-- the same in matrix form: the kernel of the Mathlib matrix `L0Matrix K s o` is the set of vectors that are
+    constant on the classes of `compSetoid s` -/
+theorem ker_L0Matrix_iff {K : Type} [Field K] [LinearOrder K] [IsStrictOrderedRing K] (h : WF s) (o : PyId → Nat)
+    (x : Fin s.nodes.length → K) :
+    (L0Matrix K s o).mulVec x = 0 ↔ ∀ i j, (compSetoid s).r i j → x i = x j := by
+  let xe : Nat → K := fun k => if hk : k < s.nodes.length then x ⟨k, hk⟩ else 0
+  have hxe : ∀ i : Fin s.nodes.length, xe i = x i := fun i => by simp [xe]
+  have hmv : ∀ i : Fin s.nodes.length, (L0Matrix K s o).mulVec x i =
+      ∑ j ∈ range s.nodes.length, ((hodge s 0 o).e i j : K) * xe j := by
+    intro i
+    rw [← Fin.sum_univ_eq_sum_range (fun j => ((hodge s 0 o).e i j : K) * xe j)]
+    simp only [Matrix.mulVec, dotProduct, L0Matrix, Matrix.of_apply, hxe]
+  have hiff := ker_L0_field_iff_const_on_components h o xe
+  constructor
+  · intro hz i j hij
+    have := hiff.mp (fun i hi => by rw [← hmv ⟨i, hi⟩, hz]; rfl) i j i.2 j.2 hij
+    rwa [hxe, hxe] at this
+  · intro hc
+    funext i
+    rw [hmv i]
+    refine hiff.mpr ?_ i i.2
+    intro ia ib hia hib hr
+    have := hc ⟨ia, hia⟩ ⟨ib, hib⟩ hr
+    rwa [← hxe, ← hxe] at this
+
+/-- **the executable labelling decides reachability**: two vertices get the same representative from
+    `labels (edgePairs s)` exactly when they are joined by a path of 1-simplices -/
+theorem components_labels_spec (h : WF s) (a b : Atom) :
+    labels (edgePairs s) a = labels (edgePairs s) b ↔ Reach s a b := labels_reach h.memNodup a b
+
+/-- **the executable component count** (what the driver reports and the harness compares with its union-find and with
+    `xgi.number_connected_components`) is the number of reachability classes of node positions -/
+theorem components_count_spec (h : WF s) : nComponents s = Nat.card (Quotient (compSetoid s)) :=
+  nComponents_eq_card h.memNodup
+
+/-- **dim ker `L_0` = number of reachability classes**, over every ordered field (ℚ, ℝ): the kernel of the linear map
+    of the model's `L_0` is linearly equivalent to the functions on the quotient of the node positions by
+    reachability through 1-simplices (`kerEquivQuotientFun`) -/
+theorem ker_L0_finrank_eq_card_classes {K : Type} [Field K] [LinearOrder K] [IsStrictOrderedRing K] (h : WF s)
+    (o : PyId → Nat) :
+    Module.finrank K (LinearMap.ker (Matrix.toLin' (L0Matrix K s o))) = Nat.card (Quotient (compSetoid s)) :=
+  finrank_ker_of_const_on_classes _ _ (ker_L0Matrix_iff h o)
+
+/-- **the kernel of the order-0 Laplacian has dimension equal to the number of connected components**
+    (for every well-formed complex, every orientation, over every ordered field) -/
+theorem ker_L0_finrank {K : Type} [Field K] [LinearOrder K] [IsStrictOrderedRing K] (h : WF s) (o : PyId → Nat) :
+    Module.finrank K (LinearMap.ker (Matrix.toLin' (L0Matrix K s o))) = nComponents s := by
+  rw [ker_L0_finrank_eq_card_classes h o, components_count_spec h]
+
 /-! ### non-vacuity: a concrete complex with mixed labels, non-sorted insertion order and explicit ids meets
     the hypotheses, and the model evaluates to the matrices xgi returns for it -/
 
@@ -425,5 +596,29 @@ example : (hodge demo 0 demoO).toLists =
 /-- a complex that is not downward closed violates the hypotheses (and the Python call raises) -/
 example : ¬ WF { demo with simplices := demo.simplices.take 4 } := by decide
 example : boundaryDefined { demo with simplices := demo.simplices.take 4 } 2 demoO = false := by decide +kernel
+
+/-! non-vacuity of the kernel clause: `demo` has the component {3, 1, 2, "a"} and the isolated node 9;
+    `demo2` has two components with an edge each and one isolated node -/
+private def demo2 : SC :=
+  { nodes := [.int 0, .str "b", .int 2, .int 5, .str "a"]
+    simplices := [(.int 0, [.str "a", .int 0]), (.int 1, [.int 5, .str "b"])] }
+
+example : nComponents demo = 2 := by decide
+example : WF demo2 := by decide
+example : nComponents demo2 = 3 := by decide
+example : labels (edgePairs demo2) (.int 0) = labels (edgePairs demo2) (.str "a") := by decide
+example : labels (edgePairs demo2) (.int 0) ≠ labels (edgePairs demo2) (.int 5) := by decide
+example : Reach demo (.int 3) (.str "a") := (components_labels_spec (by decide) _ _).mp (by decide)
+example : ¬ Reach demo (.int 3) (.int 9) := fun hr => absurd ((components_labels_spec (by decide) _ _).mpr hr) (by decide)
+/-- a disconnected complex whose `L_0` has a 2-dimensional kernel over ℚ -/
+example : Module.finrank ℚ (LinearMap.ker (Matrix.toLin' (L0Matrix ℚ demo demoO))) = 2 := by
+  rw [ker_L0_finrank (by decide)]; decide
+example : Module.finrank ℚ (LinearMap.ker (Matrix.toLin' (L0Matrix ℚ demo2 (fun _ => 0)))) = 3 := by
+  rw [ker_L0_finrank (by decide)]; decide
+/-- the indicator of the component {3, 1, 2, "a"} of `demo` is in the kernel, the indicator of {3, 1} is not -/
+example : ∀ i < (hodge demo 0 demoO).r, (hodge demo 0 demoO).mulVec (fun k => if k < 4 then 1 else 0) i = 0 := by
+  decide +kernel
+example : ¬ ∀ i < (hodge demo 0 demoO).r, (hodge demo 0 demoO).mulVec (fun k => if k < 2 then 1 else 0) i = 0 := by
+  decide +kernel
 
 end Xgi.C13
